@@ -39,7 +39,15 @@ def struct_oracle(case, impl, model):
 
 
 def prog_case(name, prog, rng=None, mode="lines", opts=None, info=None, line=False, nontrivial=True, xp=None, check_class=True):
-    src = G.source(prog, mode, rng, xp)
+    # a deterministic third of the programs is written in one of the other styles (trailing commas in list / record literals,
+    # comment blocks between statements — also empty ones —, parenthesised conditions): same tree, same meaning
+    import hashlib
+    h = hashlib.sha256(repr(prog).encode("utf-8")).digest()[0]
+    if not line and h % 3 == 0:
+        with G.styled(trailing_comma=bool(h & 4), comments=bool(h & 8), paren_cond=bool(h & 16)):
+            src = G.source(prog, mode, rng, xp)
+    else:
+        src = G.source(prog, mode, rng, xp)
     expect = structsem.run(prog)
     inf = {"src": src, "expect": expect, "check_class": check_class}
     if expect[1] == "toobig":
